@@ -47,6 +47,8 @@ def main():
         kl = req.get("klayouts") or {}
         kwargs = {k: R.build_special(R.build_arg(v, kl.get(k, "C"), fill=1)) for k, v in req["kwargs"].items()}
         keep = [a.copy() if isinstance(a, np.ndarray) else None for a in args]
+        frozen = [(a, a.tobytes()) for a in list(args) + list(kwargs.values())
+                  if isinstance(a, np.ndarray) and not a.flags.writeable and a.dtype != object]
         if req.get("predirty") is not None:
             n = sum(a.nbytes for a in args if isinstance(a, np.ndarray)) or 64
             dirty_heap(n, req["predirty"])
@@ -69,6 +71,8 @@ def main():
             if k is not None and not (a.shape == k.shape and np.array_equal(a, k, equal_nan=(a.dtype.kind == "f"))):
                 unchanged = False
         out["args_unchanged"] = unchanged
+        if any(a.tobytes() != b for a, b in frozen):
+            out["readonly_modified"] = True
         out["elapsed"] = round(time.time() - t0, 3)
         if ALARM:
             signal.alarm(0)
